@@ -69,8 +69,9 @@ def _day10(s: str):
 class Dir:
     """A real notes directory driven by abstract Index.tla states."""
 
-    def __init__(self):
+    def __init__(self, names: dict | None = None):
         self.env = zenv.ZEnv()
+        self.names = dict(names or PAGE_FILE)      # page number -> file (e.g. two pages with the same base name)
         self.zmap: dict = {}          # abstract zid (day, n) -> real zid string, for rendering user edits
 
     def cleanup(self):
@@ -98,18 +99,18 @@ class Dir:
     def write_files(self, files: dict, only_changed_from: dict | None = None) -> None:
         """Makes the real pages look like the abstract `files` (a user edit)."""
         for p, pg in files.items():
-            path = self.env.path(PAGE_FILE[p])
+            path = self.env.path(self.names[p])
             if only_changed_from is not None and only_changed_from.get(p) == pg:
                 continue
             if not pg["ex"]:
                 if path.exists():
                     path.unlink()
             else:
-                self.env.write(PAGE_FILE[p], self.render_page(p, pg))
+                self.env.write(self.names[p], self.render_page(p, pg))
 
     # ----------------------------------------------------------- projection
     def project_file(self, p: int):
-        path = self.env.path(PAGE_FILE[p])
+        path = self.env.path(self.names[p])
         if not path.exists():
             return {"ex": False, "broken": False, "notes": []}
         text = path.read_text()
@@ -159,7 +160,7 @@ class Dir:
             con.close()
         out = {}
         for p in pages:
-            f = PAGE_FILE[p]
+            f = self.names[p]
             if f not in indexed:
                 out[p] = {"ex": False, "broken": False, "notes": []}
                 continue
